@@ -319,6 +319,25 @@ def base_params(econ: int, enduse: int, plant: int, L: int = 30, n: int = 4) -> 
     return p
 
 
+def ags_params(econ: int, enduse: int = 1, plant: int = 1, L: int = 30) -> dict:
+    """closed-loop (Is AGS) U-loop under the classical economic models 1-3 (adapted from the Wanju_Yuan example)"""
+    return {
+        'Is AGS': True, 'Has Nonvertical Section': True, 'Multilaterals Cased': True, 'Well Geometry Configuration': 1,
+        'Plant Lifetime': L, 'Water Thermal Conductivity': 0.65, 'Nonvertical Length per Multilateral Section': 5001.0,
+        'Nonvertical Wellbore Diameter': 0.23495, 'Cylindrical Reservoir Radius of Effect Factor': 5.0,
+        'Closed Loop Calculation Start Year': 0.1, 'Number of Multilateral Sections': 3, 'Well Drilling Cost Correlation': 3,
+        'Reservoir Impedance': 1E-4, 'Injection Temperature': 60, 'Gradient 1': 26.25, 'Reservoir Depth': 4.0,
+        'Cylindrical Reservoir Input Depth': 4.0, 'Cylindrical Reservoir Output Depth': 4.0, 'Cylindrical Reservoir Length': 5.0,
+        'Reservoir Model': 0, 'Number of Production Wells': 1, 'Number of Injection Wells': 1, 'Ramey Production Wellbore Model': 0,
+        'Production Wellbore Temperature Drop': 0, 'Production Flow Rate per Well': 110, 'Maximum Temperature': 375,
+        'Reservoir Volume Option': 4, 'Reservoir Volume': 1e9, 'Reservoir Heat Capacity': 1050, 'End-Use Option': enduse,
+        'Power Plant Type': plant, 'Circulation Pump Efficiency': 0.8, 'Plant Outlet Pressure': 68.95, 'Economic Model': econ,
+        'Fraction of Investment in Bonds': 0.65, 'Inflated Bond Interest Rate': 0.07, 'Inflated Equity Interest Rate': 0.12,
+        'Inflation Rate': 0.025, 'Combined Income Tax Rate': 0.392, 'Gross Revenue Tax Rate': 0, 'Discount Rate': 0.07,
+        'Fixed Charge Rate': 0.08, 'Print Output to Console': 0,
+    }
+
+
 def grid():
     """96 configurations: econ x end-use x plant types valid for it"""
     out = []
